@@ -171,10 +171,22 @@ theorem C07_bool_long_bool (b : Bool) : roundTrip (.bool b) .long .boolean = .ok
 theorem C07_bool_str_bool (b : Bool) : roundTrip (.bool b) .string .boolean = .ok (.bool b) := by
   cases b <;> rfl
 
+/-- `Time.Unix()` undoes the wrap-around of `time.Unix` on the stored seconds, so the round trip is the identity
+on the whole 64-bit range, including the values whose stored seconds overflow -/
+theorem ofInt_unixSec (x : Int64) : Int64.ofInt (unixSec x) = x := by
+  unfold unixSec
+  rw [Int64.ofInt_sub, Int64.ofInt_toInt, Int64.ofInt_add, Int64.ofInt_toInt, Int64.add_sub_cancel]
+
+/-- below the wrap-around point the stored value is the argument itself -/
+theorem unixSec_eq (x : Int64) (h : x.toInt ≤ 9223372036854775807 - 62135596800) : unixSec x = x.toInt := by
+  unfold unixSec
+  have h0 := x.le_toInt
+  rw [Int64.toInt_ofInt_of_le (by omega) (by omega)]; omega
+
 theorem C07_int_datetime_int (x : Int64) : roundTrip (.int x) .dateTime .integer = .ok (.int x) := by
-  simp [roundTrip, convertUnsafe, V.typ, R.bind]
+  simp [roundTrip, convertUnsafe, V.typ, R.bind, ofInt_unixSec]
 theorem C07_long_datetime_long (x : Int64) : roundTrip (.long x) .dateTime .long = .ok (.long x) := by
-  simp [roundTrip, convertUnsafe, V.typ, R.bind]
+  simp [roundTrip, convertUnsafe, V.typ, R.bind, ofInt_unixSec]
 
 theorem C07_int_timespan_int (x : Int64)
     (h0 : -9223372036854 ≤ x.toInt) (h1 : x.toInt ≤ 9223372036854) :
